@@ -155,7 +155,12 @@ func describe(m *bgp.BGPMessage, opt *bgp.MarshallingOption, ap bool) string {
 		u := m.Body.(*bgp.BGPUpdate)
 		return fmt.Sprintf("(toolong %s)", content(u, true))
 	}
-	pm, err := bgp.ParseBGPMessage(buf, opt)
+	// the receiver reads it with the mirrored ADD-PATH mode: what we send it receives
+	ropt := &bgp.MarshallingOption{ExtendedMessage: opt.ExtendedMessage, AddPath: map[bgp.Family]bgp.BGPAddPathMode{}}
+	for f, m := range opt.AddPath {
+		ropt.AddPath[f] = (m&bgp.BGP_ADD_PATH_SEND)>>1 | (m&bgp.BGP_ADD_PATH_RECEIVE)<<1
+	}
+	pm, err := bgp.ParseBGPMessage(buf, ropt)
 	if err != nil {
 		return fmt.Sprintf("(%d unparsable)", len(buf))
 	}
@@ -226,10 +231,12 @@ func run(line string) (out string) {
 		}
 	}()
 	ns := sx.MustParse(line)
-	ext, ap := ns[1].Bool(), ns[2].Bool()
+	// ADD-PATH mode of the session: 0 none, 1 both, 2 send only, 3 receive only; path identifiers are written iff we send them
+	ext, apmode := ns[1].Bool(), ns[2].Uint()
+	ap := apmode == 1 || apmode == 2
 	opt := &bgp.MarshallingOption{ExtendedMessage: ext}
-	if ap {
-		opt.AddPath = map[bgp.Family]bgp.BGPAddPathMode{bgp.RF_IPv4_UC: bgp.BGP_ADD_PATH_BOTH, bgp.RF_IPv6_UC: bgp.BGP_ADD_PATH_BOTH}
+	if m := map[uint64]bgp.BGPAddPathMode{1: bgp.BGP_ADD_PATH_BOTH, 2: bgp.BGP_ADD_PATH_SEND, 3: bgp.BGP_ADD_PATH_RECEIVE}[apmode]; m != 0 {
+		opt.AddPath = map[bgp.Family]bgp.BGPAddPathMode{bgp.RF_IPv4_UC: m, bgp.RF_IPv6_UC: m}
 	}
 	var paths []*table.Path
 	for _, c := range ns[3].List {
